@@ -16,6 +16,8 @@ mod e2;
 mod e2gen;
 #[cfg(feature = "pm")]
 mod e3;
+#[cfg(feature = "pm")]
+mod e5;
 #[cfg(not(feature = "stateless"))]
 mod proto;
 
@@ -101,6 +103,19 @@ fn main() {
         "run" => run_one(&args),
         "gen" => gen_one(&args),
         "selftest-model" => selftest_model(),
+        #[cfg(feature = "pm")]
+        "transcript" => {
+            let t = match util::guarded(|| e5::transcript(args.u64("seed", 1))) {
+                Ok(t) => t,
+                Err(p) => {
+                    eprintln!("transcript panicked: {p}");
+                    vec![("PANIC".to_string(), p)]
+                }
+            };
+            let v: Vec<Value> = t.into_iter().map(|(k, v)| json!([k, v])).collect();
+            write_out(&args, &json!({"transcript": v, "rayon_threads": rayon::current_num_threads()}));
+            0
+        }
         _ => {
             eprintln!("usage: simworker batch|run|gen|selftest-model --engine e1 --prop Cxx ...");
             2
@@ -200,6 +215,10 @@ fn batch(args: &Args) -> i32 {
                         "e2" => run_e2(args, prop, run_seed, known, &mut local, want_logs),
                         #[cfg(feature = "pm")]
                         "e3" => run_e3(args, run_seed, &mut local, want_logs),
+                        #[cfg(feature = "pm")]
+                        "e5b" => run_e5b(args, prop, run_seed, &mut local, want_logs),
+                        #[cfg(feature = "pm")]
+                        "e5d" => run_e5d(args, prop, i, run_seed, &dir, &mut local),
                         _ => {
                             local.harness_errors.push(format!("unknown engine {engine}"));
                             break;
@@ -464,6 +483,116 @@ fn run_e3(args: &Args, run_seed: u64, local: &mut Agg, want_logs: bool) {
     }
 }
 
+#[cfg(feature = "pm")]
+static FIRST_BATON_RUN: AtomicBool = AtomicBool::new(true);
+
+#[cfg(feature = "pm")]
+fn run_e5b(args: &Args, prop: &str, run_seed: u64, local: &mut Agg, want_logs: bool) {
+    let thorough = args.get("tier") == Some("thorough");
+    let trace = e5::generate_baton(run_seed, thorough, prop == "C14");
+    let cold = FIRST_BATON_RUN.swap(false, Ordering::SeqCst);
+    let out = e5::run_baton(&trace, prop, cold);
+    local.runs += 1;
+    local.steps += (trace.cold.iter().map(|s| s.len()).sum::<usize>() + trace.shared.iter().map(|s| s.len()).sum::<usize>()) as u64;
+    local.counters.merge(&out.counters);
+    local.traces.insert(trace.digest());
+    // distinct interleavings: digest of the two recorded schedules
+    if out.counters.0.get("thread_switches").copied().unwrap_or(0) > 0 {
+        local.nontrivial.insert(out.schedule_digest);
+    }
+    local.states.insert(out.schedule_digest);
+    if want_logs {
+        local.logs.push((run_seed, out.log ^ out.schedule_digest));
+    }
+    if local.samples.len() < 1 {
+        local.samples.push(out.trace_with_schedule.to_json());
+    }
+    if let Some(e) = out.harness_error {
+        local.harness_errors.push(format!("seed {run_seed}: {e}"));
+    }
+    if let Some(v) = out.violation {
+        // minimise: fewer calls per thread while the recorded schedule still reproduces the class
+        let mut best = out.trace_with_schedule.clone();
+        let class = v.class();
+        let mut used = 0;
+        let budget = args.u64("shrink-budget", 30) as usize;
+        'outer: for phase in 0..2 {
+            let nthreads = best.threads;
+            for t in 0..nthreads {
+                loop {
+                    let len = if phase == 0 { best.shared[t].len() } else { best.cold[t].len() };
+                    if len == 0 || used >= budget {
+                        break;
+                    }
+                    let mut cand = best.clone();
+                    if phase == 0 { cand.shared[t].pop(); } else { cand.cold[t].pop(); }
+                    // a shorter script changes the decision sequence: draw the schedule afresh from the seed
+                    cand.schedule_cold.clear();
+                    cand.schedule_shared.clear();
+                    used += 1;
+                    let o = e5::run_baton(&cand, prop, false);
+                    if matches!(&o.violation, Some(x) if x.class() == class) {
+                        best = o.trace_with_schedule;
+                    } else {
+                        break;
+                    }
+                    if used >= budget {
+                        break 'outer;
+                    }
+                }
+            }
+        }
+        local.violations.push(json!({
+            "violation": v.to_json(),
+            "trace": best.to_json(),
+            "original_steps": 0,
+            "shrink_runs": used,
+            "seed": run_seed.to_string(),
+        }));
+    }
+}
+
+#[cfg(feature = "pm")]
+fn run_e5d(args: &Args, cur_prop: &str, index: u64, run_seed: u64, dir: &std::path::Path, local: &mut Agg) {
+    let grid: [u64; 12] = [0, 1, 2, 5, 11, 12, 50, 111, 112, 500, 1000, 1111];
+    let mut rng = prng::Prng::new(run_seed);
+    let release = if (index as usize) < 2 * grid.len() { grid[(index as usize) % grid.len()] } else { *rng.pick(&[rng.clone().below(1001), 5_000, 50_000, 2_000_000_000]) };
+    let kind = if index % 13 == 12 { 1 } else { 0 };
+    let via_rln = index % 2 == 1;
+    let _ = args;
+    let o = e5::run_clock(dir, release, kind, via_rln, run_seed);
+    local.runs += 1;
+    local.steps += 1 + o.sleeps.len() as u64;
+    local.counters.merge(&o.counters);
+    local.counters.add("simulated_ms", o.sim_ms);
+    let d = util::fnv_str(&format!("{release}/{kind}/{via_rln}"));
+    local.traces.insert(d);
+    if !o.sleeps.is_empty() || kind == 1 {
+        local.nontrivial.insert(d);
+    }
+    let tj = json!({"engine":"e5d","property":"C18","release_ms":release.to_string(),"kind":kind,"via_rln":via_rln,"seed":run_seed.to_string(),"observed_sleeps_ms":o.sleeps});
+    if local.samples.len() < 2 {
+        local.samples.push(tj.clone());
+    }
+    if let Some(e) = o.harness_error {
+        local.harness_errors.push(format!("seed {run_seed}: {e}"));
+    }
+    if let Some((clause, detail)) = o.violation {
+        let prop = if clause.starts_with("acknowledged_update_lost") { "C16" } else { "C18" };
+        if prop != cur_prop {
+            local.counters.inc(&format!("foreign.{prop}.{clause}"));
+            return;
+        }
+        local.violations.push(json!({
+            "violation": {"property": prop, "clause": clause, "detail": detail, "class": format!("{prop}|retry_clock|{clause}")},
+            "trace": tj,
+            "original_steps": 1,
+            "shrink_runs": 0,
+            "seed": run_seed.to_string(),
+        }));
+    }
+}
+
 fn run_one(args: &Args) -> i32 {
     let path = match args.get("trace") {
         Some(p) => p,
@@ -505,6 +634,29 @@ fn run_one(args: &Args) -> i32 {
                 "harness_error": out.harness_error,
                 "log": ctx.log.0.to_string(),
                 "counters": ctx.counters.to_json(),
+            })
+        }
+        #[cfg(feature = "pm")]
+        "e5b" => {
+            let t = e5::BatonTrace::from_json(&tv).expect("e5b trace");
+            let o = e5::run_baton(&t, &prop, true);
+            json!({
+                "violation": o.violation.map(|v| v.to_json()),
+                "harness_error": o.harness_error,
+                "log": (o.log ^ o.schedule_digest).to_string(),
+                "counters": o.counters.to_json(),
+            })
+        }
+        #[cfg(feature = "pm")]
+        "e5d" => {
+            let release = tv["release_ms"].as_str().and_then(|s| s.parse().ok()).unwrap_or(0);
+            let seed = tv["seed"].as_str().and_then(|s| s.parse().ok()).unwrap_or(0);
+            let o = e5::run_clock(&base, release, tv["kind"].as_u64().unwrap_or(0) as u8, tv["via_rln"].as_bool().unwrap_or(false), seed);
+            json!({
+                "violation": o.violation.map(|(c, d)| { let p = if c.starts_with("acknowledged_update_lost") { "C16" } else { "C18" }; json!({"property": p, "clause": c, "detail": d, "class": format!("{p}|retry_clock|{c}")}) }),
+                "harness_error": o.harness_error,
+                "log": o.sim_ms.to_string(),
+                "counters": o.counters.to_json(),
             })
         }
         #[cfg(feature = "pm")]
